@@ -6,7 +6,7 @@
     output of the generated stream (go build + gofmt -l). *)
 From Coq Require Import String.
 From Cvg Require Import Base GoTypes Dump Options Front Builder Gen.
-From Cvg.proofs Require Import BuilderProofs MatchProofs.
+From Cvg.proofs Require Import BuilderProofs MatchProofs TypedProofs.
 Open Scope N_scope.
 
 (** Every expression castNode lets through for a target type t is assignable to
@@ -62,6 +62,18 @@ Example C01_addressable_examples :
   addressable (NMethod src (s2b "C") g) = false /\
   addressable (NCast (NField src f) (TBasic 6 (s2b "int64")) (s2b "int64")) = false.
 Proof. repeat split. Qed.
+
+(** The same, for the whole result: EVERY entry structToStruct returns — at any nesting depth,
+    whichever notation or default rule produced it — is a skip or no-match comment, the literal
+    the user wrote, an expression castNode fitted to the assigned field's type in one of the
+    three ways above, a member-wise block of such entries, or a slice block between element
+    types that are identical and basic (copy), assignable (loop) or, under :typecast,
+    convertible (converting loop). *)
+Theorem C01_every_entry_is_typed :
+  forall d o mpos fuel L R args l ev,
+    struct_to_struct d o mpos fuel L R args = (Ok l, ev) -> Forall (typed_entry d o) l.
+Proof. exact struct_to_struct_typed. Qed.
+Print Assumptions C01_every_entry_is_typed.
 
 (** The parameter list is a comma-joined list of non-empty "name type" items: no empty slot. *)
 Theorem C01_params_nonempty_items :
